@@ -1,5 +1,6 @@
 """C06  Duplicate or redelivered messages have the effect of a single
 delivery."""
+import json
 import random
 
 from mvf import engine_case as ec
@@ -196,12 +197,14 @@ def run_case(case):
     sample = None
     # where was message i sent (boundary)?  replay identical schedule
     sent_at = {}
+    sender = {}
     step = 0
     for ev in base.world.rec.events:
         if ev['kind'] == 'STEP':
             step = ev['n']
         elif ev['kind'] == 'RPC_SEND':
             sent_at[ev['index']] = step
+            sender[ev['index']] = ev.get('ulabel') or ''
     cand = [m for m in msgs if m.method in ENGINE_KINDS and
             (m.method != 'start_workflow' or m.raw.get('wf_ex_id'))]
     if len(cand) > case['max_msgs']:
@@ -273,10 +276,87 @@ def run_case(case):
                 res['keys'].append(['run_action',
                                     'lost' if lost else 'dup',
                                     bool(m.raw.get('safe_rerun')), shape])
+        # the executor's result reaches the engine but the confirmation of
+        # the send is lost (the sender sees a transport error): still one
+        # result per run, and the run ends as without the fault
+        outs = [m for m in msgs if m.method == 'on_action_complete' and
+                not m.raw.get('wf_action') and
+                (sender.get(m.index) or '').startswith('rpc:run_action')]
+        if len(outs) > 3:
+            outs = brng.sample(outs, 3)
+        for m in outs:
+            _ack_lost(c0, base, m, res, shape)
     res['sample'] = sample
     if case.get('_trace'):
         res['trace'] = ec.trace_lines(run)
     return res
+
+
+def _ack_lost(c0, base, m, res, shape):
+    aid = m.raw.get('action_ex_id')
+    st = {}
+
+    def hook(w):
+        def flt(msg):
+            if st.get('hit') or msg.method != 'on_action_complete' or \
+                    msg.dup_of is not None or \
+                    msg.raw.get('action_ex_id') != aid:
+                return False
+            st['hit'] = True
+            return True
+        w.ack_fault = flt
+    bhook, bphases = _pause_plan(c0, {})
+
+    def hooks(w):
+        hook(w)
+        if bhook:
+            bhook(w)
+    run = ec.execute(c0, replay=base.choices, phases=bphases,
+                     setup_hook=hooks, exc_allow=('ValueError',))
+    res['executions'] += 1
+    _collect(res, run)
+    if run.inconclusive:
+        res['inconclusive'] = 'ack-lost: ' + run.inconclusive
+        return
+    if not st.get('hit'):
+        return
+    res['monitor_evaluations']['ack-lost'] = \
+        res['monitor_evaluations'].get('ack-lost', 0) + 1
+    desc = {'message': 'on_action_complete', 'fault': 'confirmation of the '
+            'send lost (delivered; the executor sees a transport error)'}
+    for v in run.violations:
+        if v.get('monitor') == 'exception-type' and \
+                'ConnectionResetError' in (v.get('msg') or ''):
+            continue
+        res['violations'].append(dict(v, duplicate=desc))
+    n0 = len(res['violations'])
+    _results_per_run(res, run, 'ack-lost')
+    for v in res['violations'][n0:]:
+        # the recorded finding: exactly one extra (error) report for the
+        # one run; any other count is reported
+        if v.get('n_results') == 2 and v.get('n_runs') == 1:
+            v['fault_class'] = 'ack-lost'
+    d = nf_mod.diff(base.nf, run.nf)
+    if d:
+        res['violations'].append({
+            'prop': 'C06', 'monitor': 'ack-lost',
+            'mech': 'lost-confirmation-changes-the-run', 'duplicate': desc,
+            'fault_class': 'ack-lost' if _error_report_won(run, aid)
+            else None,
+            'msg': 'the result of %s was delivered once, the executor saw '
+                   'a transport error: the run differs from the run '
+                   'without the fault: %s' % (m.brief(), d)})
+    res['keys'].append(['on_action_complete', 'ack-lost', shape])
+
+
+def _error_report_won(run, aid):
+    """The run differs because the executor's second (error) report was
+    handled before the genuine result: the action execution ended ERROR with
+    the executor's own message."""
+    a = run.rows['action'].get(aid)
+    out = json.dumps(a.j('output')) if a else ''
+    return bool(a) and a['state'] == 'ERROR' and \
+        'Failed to complete action due to a Mistral exception' in out
 
 
 def _redelivery(c0, base, m, sent_at, lost, res):
@@ -598,6 +678,7 @@ def _results_per_run(res, run, what):
             res['violations'].append({
                 'prop': 'C06', 'monitor': 'results-per-run',
                 'mech': 'more-results-than-runs', 'phase': what,
+                'n_results': n, 'n_runs': runs.get(aid, 0),
                 'msg': 'action execution %s ran %d times but %d results '
                        'were reported for it' % (aid, runs.get(aid, 0), n)})
 
